@@ -1,6 +1,6 @@
 SPECIFICATION Spec
-CONSTANTS MaxLen = 6
-          Fuel = 8
-          Variant = "current"
+CONSTANTS MaxLen = 5
+          Fuel = 7
+          Variant = "loopend-any-kind"
 INVARIANTS NoBad PsLive ChainLive AllClosedAtEnd LoopsEnclose LevelIsDepth
 CHECK_DEADLOCK FALSE
